@@ -34,7 +34,12 @@ def _biased_raw():
     def mk(n, extra, ns, backend_bias):
         classes = [{"kw": i % 2, "bases": [], "members": [{"m": "method", "vis": 0, "static": False, "const": bool(i % 2), "virt": 0, "doc": 0,
                                                             "ovs": [{"params": [{"k": "obj", "c": j, "mode": 3}], "ret": {"k": "void"}, "ndef": 0, "dv": 0}
-                                                                    for j in range(n)]}],
+                                                                    for j in range(n)]},
+                                                           # an overloaded call operator and several constructors: slot wrappers over sets of remaps
+                                                           {"m": "op", "vis": 0, "op": 7, "t": {"k": "cstr"}},
+                                                           {"m": "ctor", "vis": 0, "params": [{"k": "prim", "p": 6}], "explicit": False, "form": 0, "dv": 0},
+                                                           {"m": "ctor", "vis": 0, "params": [{"k": "cstr"}], "explicit": False, "form": 0, "dv": 0},
+                                                           {"m": "ctor", "vis": 0, "params": [{"k": "prim", "p": 13}, {"k": "prim", "p": 6}], "explicit": False, "form": 0, "dv": 0}],
                     "file": 0, "inpub": False, "doc": 0} for i in range(n)]
         funcs = [{"ovs": [{"params": [{"k": "obj", "c": j, "mode": 3 + (j % 2)}], "ret": {"k": "prim", "p": 6}, "ndef": 0, "dv": 0} for j in range(n)],
                   "file": 0, "inpub": True, "doc": 0}]
@@ -87,10 +92,10 @@ def _tmpl():
 
 
 def _strategy(ctx):
-    return st.builds(lambda raw, backend, perts, mod: {"raw": raw, "backend": backend, "perts": perts, "module": mod},
+    return st.builds(lambda raw, backend, perts, mod, ep: {"raw": raw, "backend": backend, "perts": perts, "module": mod, "epoch": ep},
                      st.one_of(_biased_raw(), _biased_raw(), hgen.raw_libraries(), _tmpl()),
                      st.sampled_from(["-python-native", "-python-native", "-c", "-python"]),
-                     st.lists(_perturbation(), min_size=ctx.pick(3, 8), max_size=ctx.pick(3, 8)), st.booleans())
+                     st.lists(_perturbation(), min_size=ctx.pick(3, 8), max_size=ctx.pick(3, 8)), st.booleans(), st.sampled_from(EPOCHS))
 
 
 def _hashes(d, names):
@@ -104,13 +109,16 @@ def _hashes(d, names):
 OUTS = ["l_igate.cxx", "l.in", "l.txt", "m_module.cxx"]
 
 
-def _run_all(d, lib, backend, env_extra, prefix, with_module, epoch=True):
+EPOCHS = ["1700000000", "1700000000", "0", "1", "2147483647", "00", "86400"]
+
+
+def _run_all(d, lib, backend, env_extra, prefix, with_module, epoch="1700000000"):
     for n in OUTS:
         if os.path.exists(os.path.join(d, n)):
             os.unlink(os.path.join(d, n))
     env = run.base_env()
     if epoch:
-        env["SOURCE_DATE_EPOCH"] = "1700000000"
+        env["SOURCE_DATE_EPOCH"] = epoch
     env.update(env_extra)
     argv = prefix + [build.tool("interrogate"), "-oc", "l_igate.cxx", "-od", "l.in", "-oh", "l.txt", "-module", "m", "-library", "l", backend,
                      "-string", "-fnames"] + igate.std_args() + lib.search + lib.cmd_headers
@@ -132,7 +140,9 @@ def judge(case, ctx):
     with run.Scratch("c14", shm=True) as d:
         for f, txt in lib.files.items():
             run.write(os.path.join(d, f), txt)
-        r, r2, ref = _run_all(d, lib, case["backend"], {}, [], case["module"])
+        epoch = case.get("epoch", "1700000000")
+        classes.append("epoch." + epoch)
+        r, r2, ref = _run_all(d, lib, case["backend"], {}, [], case["module"], epoch=epoch)
         if r.rc != 0:
             return Outcome(discard=True)
         keep = {n: open(os.path.join(d, n), "rb").read() for n in OUTS if ref[n]}
@@ -157,7 +167,7 @@ def judge(case, ctx):
             prefix = ["setarch", "x86_64", "-R"] if not p["aslr"] else []
             kinds.add("aslr" if p["aslr"] else "noaslr")
             kinds.add("heap")
-            ra, rb, h = _run_all(d, lib, case["backend"], env, prefix, case["module"])
+            ra, rb, h = _run_all(d, lib, case["backend"], env, prefix, case["module"], epoch=epoch)
             if ra.rc != 0 or (rb is not None and rb.rc != 0):
                 if ra.abnormal or (rb is not None and rb.abnormal):
                     return Outcome(ok=False, key="crash:" + (ra.kind() if ra.abnormal else rb.kind()),
@@ -176,10 +186,19 @@ def judge(case, ctx):
                                        new[max(0, i - 200):i + 200].decode("latin-1"), lib.files[lib.main][:1500]))
         classes += ["pert." + k for k in sorted(kinds)]
         # without SOURCE_DATE_EPOCH: only the file identifier may differ, and it is the same number in code and database
-        if case["perts"][0]["seed"] % 4 == 0:
+        if case["perts"][0]["seed"] % 4 == 0 or epoch in ("0", "00"):
             r, _, h1 = _run_all(d, lib, case["backend"], {}, [], False, epoch=False)
             a = {n: open(os.path.join(d, n), "rb").read() for n in OUTS[:3] if h1[n]}
             time.sleep(1.2)
+            # with SOURCE_DATE_EPOCH (whatever its value) the wall clock must not show: the reference run is at least 1.2s old
+            r, _, h3 = _run_all(d, lib, case["backend"], {}, [], case["module"], epoch=epoch)
+            for n in OUTS:
+                if h3[n] != ref[n]:
+                    new = open(os.path.join(d, n), "rb").read() if h3[n] else b""
+                    return Outcome(ok=False, key="time-dependent-with-epoch:%s" % n, classes=classes,
+                                   detail="SOURCE_DATE_EPOCH=%s: %s differs between two runs >=1.2s apart:\n%s\n---\n%s" % (
+                                       epoch, n, keep.get(n, b"")[:120].decode("latin-1"), new[:120].decode("latin-1")))
+            classes.append("epoch_pair")
             r, _, h2 = _run_all(d, lib, case["backend"], {}, [], False, epoch=False)
             b = {n: open(os.path.join(d, n), "rb").read() for n in OUTS[:3] if h2[n]}
             ida, idb_ = a["l.in"].split(b"\n", 1)[0], b["l.in"].split(b"\n", 1)[0]
